@@ -60,6 +60,43 @@ class _Harness(Exception):
     """An exception that comes from this module (a harness bug): must escape ``run``."""
 
 
+class _Unspecified(Exception):
+    """Raised by a harness-built reference loop when it cannot be applied (counted, not judged)."""
+
+
+class _Finding(Exception):
+    """Raised by a harness-built reference loop when the solver breaks a documented clause."""
+
+    def __init__(self, symptom, detail):
+        Exception.__init__(self, detail)
+        self.symptom = symptom
+        self.detail = detail
+
+
+# The random source of the solvers with a ``random=True`` option (numpy's global generator,
+# consumed through numpy.random.permutation) is owned by the harness: it is seeded from the
+# configuration immediately before every run that starts from a fresh state, carried over between
+# the parts of a split run, and every drawn order is recorded (one list per solver call) so that
+# a state whose orders are all the identity / never change between iterations is known vacuous.
+_PERMS = []
+_ORIG_PERMUTATION = np.random.permutation
+
+
+def _recording_permutation(*args, **kwargs):
+    p = _ORIG_PERMUTATION(*args, **kwargs)
+    if _PERMS:
+        _PERMS[-1].append([int(i) for i in np.asarray(p).ravel()])
+    return p
+
+
+def _seeded(st, seed):
+    """Seed the generator when the state is fresh; a resumed state carries the generator on."""
+    if '_rng' not in st:
+        np.random.seed(seed)
+        st['_rng'] = True
+    _PERMS.append([])
+
+
 # ------------------------------------------------------------------------------------------
 # problem pool
 
@@ -267,6 +304,10 @@ def _attempt(fn, files):
         fn()
         return None
     except Exception as e:         # noqa
+        if isinstance(e, _Finding):
+            return ('finding', e)
+        if isinstance(e, _Unspecified):
+            return ('unspecified', e)
         tb = traceback.extract_tb(e.__traceback__)
         last = os.path.abspath(tb[-1].filename)
         if last == _THIS:
@@ -294,12 +335,18 @@ class _Acc(object):
 def _check_case(c, N, three_way, acc, name):
     lab = '%s %s' % (name, c.label)
     # ---- reference first: is the problem instance executable at all?
-    if c.ref is not None:
+    ref = c.ref
+    if ref is not None:
         st = c.fresh()
-        r = _attempt(lambda: c.ref(st, 1), c.files)
-        if r is not None:
+        r = _attempt(lambda: ref(st, 1), c.files)
+        if r is not None and r[0] == 'unspecified':
+            acc.skip('reference loop not applicable: %s' % r[1])
+            ref = None
+        elif r is not None:
             kind, e = r
-            if kind == 'own':
+            if kind == 'finding':
+                acc.viol(e.symptom, '%s: %s' % (lab, e.detail))
+            elif kind == 'own':
                 acc.viol('raises:' + type(e).__name__,
                          '%s: the shipped reference (and the optimised solver) cannot run a '
                          'documented configuration: %r' % (lab, e), site=c.raise_site)
@@ -313,7 +360,7 @@ def _check_case(c, N, three_way, acc, name):
         r = _attempt(lambda: c.run(st, k, None), c.files)
         if r is not None:
             kind, e = r
-            if c.ref is not None:
+            if ref is not None:
                 acc.viol('optimised_raises:' + type(e).__name__,
                          '%s niter=%d: reference runs, optimised raises %r' % (lab, k, e))
             elif kind == 'own':
@@ -336,13 +383,16 @@ def _check_case(c, N, three_way, acc, name):
             break
     acc.sigs.add(str(np.sign(F[K][0] - start[0]).astype(int).tolist()))
     # ---- (a) lock-step against the shipped reference
-    if c.ref is not None:
+    if ref is not None:
         scale = 1.0 + _mag(start)
         for k in range(0, N + 1):
             st = c.fresh()
-            r = _attempt(lambda: c.ref(st, k), c.files)
+            r = _attempt(lambda: ref(st, k), c.files)
             if r is not None:
-                acc.skip('reference raises at niter=%d: %s' % (k, type(r[1]).__name__))
+                if r[0] == 'finding':
+                    acc.viol(r[1].symptom, '%s niter=%d: %s' % (lab, k, r[1].detail))
+                else:
+                    acc.skip('reference raises at niter=%d: %s' % (k, type(r[1]).__name__))
                 break
             R = _snap(st, c.keys)
             if not _finite(R):
@@ -459,14 +509,16 @@ def _check_case(c, N, three_way, acc, name):
 STEP_PAIRS = [(0.5, 1.0), (1.0, 0.25), (0.25, 0.5)]
 STEPS = [0.5, 1.0, 0.25]
 STARTS = ['pat', 'zero', 'one']
+SEEDS = (1, 2, 3)       # numpy.random.seed values of the random=True states (never cut)
 
 
 def _grid(cfg, *dims):
     """Inner alphabet of a state: all combinations of the per-dimension alphabets (first entry
     = default) with at most cfg['dev'] non-default entries, simplest first.  The quick tier uses
-    the first two entries of every dimension, the thorough tier all of them."""
+    the first two entries of every dimension given as a list (a tuple is never cut), the thorough
+    tier all of them."""
     if not cfg['deep']:
-        dims = [d[:2] for d in dims]
+        dims = [d if isinstance(d, tuple) else d[:2] for d in dims]
     k = cfg['dev']
     out = []
     for combo in itertools.product(*[range(len(d)) for d in dims]):
@@ -518,22 +570,30 @@ def _cases_adupdates(cfg):
     special = sorted(set('inner_stepsizes=%s,range=%s' % (b['ss'], rk[RKIND[b['L']]])
                          for b in blocks if b['ss'] != 'scalar'))
     rsite = 'adupdates[%s]' % (';'.join(special) or 'inner_stepsizes=scalar')
-    for mu, val, x0 in _grid(cfg, STEPS, vals, STARTS):
+    rnd = bool(cfg.get('random'))
+    seeds = SEEDS if rnd else (None,)
+    for mu, val, x0, seed in _grid(cfg, STEPS, vals, STARTS, seeds):
         inner = [_inner_ss(b['ss'], val, L.range) for b, L in zip(blocks, Ls)]
         for loop in loops:
             def fresh(x0=x0):
                 return {'x': _start(dom, x0)}
 
-            def run(st, n, cb, mu=mu, inner=inner, loop=loop):
-                M_adu.adupdates(st['x'], gs, Ls, mu, inner, n, random=False, callback=cb,
+            def run(st, n, cb, mu=mu, inner=inner, loop=loop, seed=seed):
+                if rnd:
+                    _seeded(st, seed)
+                M_adu.adupdates(st['x'], gs, Ls, mu, inner, n, random=rnd, callback=cb,
                                 callback_loop=loop)
 
-            def ref(st, n, mu=mu, inner=inner):
-                M_adu.adupdates_simple(st['x'], gs, Ls, mu, inner, n, random=False)
+            def ref(st, n, mu=mu, inner=inner, seed=seed):
+                # random=True: both implementations start from the same generator state
+                if rnd:
+                    _seeded(st, seed)
+                M_adu.adupdates_simple(st['x'], gs, Ls, mu, inner, n, random=rnd)
 
-            yield Case('L=%s stepsize=%s inner_stepsizes=%s x0=%s callback_loop=%s'
+            yield Case('L=%s stepsize=%s inner_stepsizes=%s x0=%s callback_loop=%s%s'
                        % ([b['L'] for b in blocks], mu,
-                          [b['ss'] if b['ss'] != 'scalar' else val for b in blocks], x0, loop),
+                          [b['ss'] if b['ss'] != 'scalar' else val for b in blocks], x0, loop,
+                          ' random=True numpy.random.seed(%d)' % seed if rnd else ''),
                        fresh, run, ref if loop == 'outer' else None, files=files,
                        mult=len(blocks) if loop == 'inner' else 1, raise_site=rsite)
 
@@ -619,17 +679,43 @@ def _cases_kaczmarz(cfg):
     files = (M_it.__file__,)
     omegas = [0.125] if nonlin else [0.5, [0.25, 1.0, 0.5][:len(ops)], 1.0]
     starts = ['one', 'zero'] if nonlin else STARTS
-    for om, proj, x0, loop in _grid(cfg, omegas, [None, _clip], starts, ['outer', 'inner']):
+    rnd = bool(cfg.get('random'))
+    seeds = SEEDS if rnd else (None,)
+    for om, proj, x0, loop, seed in _grid(cfg, omegas, [None, _clip], starts,
+                                          ['outer', 'inner'], seeds):
         def fresh(x0=x0):
             return {'x': _start(dom, x0)}
 
-        def run(st, n, cb, om=om, proj=proj, loop=loop):
-            M_it.kaczmarz(ops, st['x'], rhs, n, omega=om, projection=proj, random=False,
+        def run(st, n, cb, om=om, proj=proj, loop=loop, seed=seed):
+            if rnd:
+                _seeded(st, seed)
+            M_it.kaczmarz(ops, st['x'], rhs, n, omega=om, projection=proj, random=rnd,
                           callback=cb, callback_loop=loop)
 
-        yield Case('ops=%s omega=%s projection=%s x0=%s callback_loop=%s'
-                   % (cfg['ops'], om, 'clip' if proj else None, x0, loop), fresh, run,
-                   resumable=(loop == 'outer'), mult=len(ops) if loop == 'inner' else 1,
+        ref = None
+        if rnd and loop == 'outer':
+            def ref(st, n, om=om, proj=proj, run=run, fresh=fresh):
+                # Reference loop for "the order of the operators is randomized in each
+                # iteration": the orders the solver really drew in a run of n iterations from
+                # the same generator state are replayed with single fixed-order steps.
+                run(fresh(), n, None)
+                orders = list(_PERMS[-1])
+                if n and not orders:
+                    raise _Unspecified('orders not drawn through numpy.random.permutation')
+                ident = list(range(len(ops)))
+                if len(orders) != n or any(sorted(o) != ident for o in orders):
+                    raise _Finding('order_not_drawn_once_per_iteration',
+                                   'random=True, niter=%d: orders drawn %s' % (n, orders))
+                for o in orders:
+                    for i in o:
+                        M_it.kaczmarz([ops[i]], st['x'], [rhs[i]], 1,
+                                      omega=om if np.isscalar(om) else om[i], projection=proj,
+                                      random=False)
+
+        yield Case('ops=%s omega=%s projection=%s x0=%s callback_loop=%s%s'
+                   % (cfg['ops'], om, 'clip' if proj else None, x0, loop,
+                      ' random=True numpy.random.seed(%d)' % seed if rnd else ''), fresh, run,
+                   ref, resumable=(loop == 'outer'), mult=len(ops) if loop == 'inner' else 1,
                    files=files)
 
 
@@ -668,13 +754,18 @@ def _cases_mlem(cfg):
     files = (M_st.__file__,)
     datas = [[_el(o.range, _P[i:] + _P[:i]) for i, o in enumerate(ops)],
              [_el(o.range, _P0[i:] + _P0[:i]) for i, o in enumerate(ops)]]
-    for di, se, x0 in _grid(cfg, [0, 1], ['none', 'float', 'elem'], ['ppat', 'one', 'zero']):
+    for di, se, x0 in _grid(cfg, [0, 1], ('none', 'list', 'float', 'elem'),
+                            ['ppat', 'one', 'zero']):
         data = datas[di]
+        # the keyword object is the caller's: ONE object per instance, reused by every call
+        # (all iteration counts, all parts of a split run)
         kw = {}
         if se == 'float':
             kw['sensitivities'] = 2.0
         elif se == 'elem':
             kw['sensitivities'] = _el(dom, _XP[2:])
+        elif se == 'list':
+            kw['sensitivities'] = [_el(dom, _XP[2 + i:]) for i in range(len(ops))]
 
         def fresh(x0=x0):
             return {'x': _start(dom, x0)}
@@ -863,6 +954,14 @@ def configs(tier):
             add(FULL if not deep else 2, solver='kaczmarz', ops=[L1, L2])
     for tri in (['I3', 'M23', 'B3'], ['M23', 'M23', 'D3'], ['G4', 'I4', 'G4']):
         add(FULL if not deep else 2, solver='kaczmarz', ops=tri)
+    # random order, generator owned by the harness: reference loop replaying the drawn orders,
+    # resumption with the generator state carried over
+    for dom, gops in list(GROUPS_D.items()) + [('rn3-nonlinear', ['Sq3', 'M23'])]:
+        for L1, L2 in itertools.product(gops, repeat=2):
+            if deep or L1 != L2:
+                add(2, solver='kaczmarz', ops=[L1, L2], random=True)
+    for tri in (['I3', 'M23', 'B3'], ['M23', 'M23', 'D3'], ['G4', 'I4', 'G4']):
+        add(2, solver='kaczmarz', ops=tri, random=True)
     # (b) mlem / osmlem
     pos = ['I3', 'P23', 'P33']
     for L in pos:
@@ -911,6 +1010,27 @@ def configs(tier):
                 for k1, k2 in sorted(set(kk), key=lambda t: (t != ('scalar', 'scalar'), t)):
                     add(1, solver='adupdates', blocks=[{'L': L1, 'g': g1, 'ss': k1},
                                                        {'L': L2, 'g': g2, 'ss': k2}])
+    # (a) alternating dual updates in random order (numpy's generator seeded identically before
+    # the optimised and the reference run): every operator pair, two functionals per range kind
+    for dom, gops in GROUPS_D.items():
+        for L1, L2 in itertools.product(gops, repeat=2):
+            s1, s2 = SHORT[RKIND[L1]], SHORT[RKIND[L2]]
+            # two different blocks always (identical blocks commute: the order would not matter)
+            pairs = [(s1[0], s2[1]), (s1[1], s2[0])]
+            if deep:
+                pairs = [(a, b) for a in s1[:3] for b in s2[:3] if (L1, a) != (L2, b)]
+            for g1, g2 in pairs:
+                k1 = [k for k in _ss_kinds(g1, RKIND[L1]) if k != 'list'][-1]
+                add(1, solver='adupdates', random=True,
+                    blocks=[{'L': L1, 'g': g1, 'ss': k1}, {'L': L2, 'g': g2, 'ss': 'scalar'}])
+    for tri, gg in ((['I3', 'M23', 'B3'], ['L1', 'L2sqt', 'Sep(L1,L2sq)']),
+                    (['M23', 'D3', 'M23'], ['KL', 'Box', 'L1']),
+                    (['G4', 'I4', 'G4'], ['GL1', 'L2sqt', 'L1']),
+                    (['I22', 'G22', 'I22'], ['L1', 'GL1', 'Nonneg'])):
+        add(1 if not deep else 2, solver='adupdates', random=True,
+            blocks=[{'L': L, 'g': g, 'ss': 'scalar'} for L, g in zip(tri, gg)])
+        add(1, solver='adupdates',
+            blocks=[{'L': L, 'g': g, 'ss': 'scalar'} for L, g in zip(tri, gg)])
     # (a) double-proximal d.c.
     for L in ops:
         for phi in SMOOTH:
@@ -966,8 +1086,9 @@ def configs(tier):
 def _site(cfg):
     s = cfg['solver']
     if s == 'adupdates':
-        return 'adupdates[%s]' % ';'.join('g=%s,inner_stepsizes=%s' % (b['g'], b['ss'])
-                                          for b in cfg['blocks'])
+        return 'adupdates[%s%s]' % (';'.join('g=%s,inner_stepsizes=%s' % (b['g'], b['ss'])
+                                             for b in cfg['blocks']),
+                                    ';random' if cfg.get('random') else '')
     if s == 'pdhg':
         return 'pdhg[f=%s,g=%s%s]' % (cfg['f'], cfg['g'],
                                       ',gamma_%s' % cfg['acc'] if cfg.get('acc') else '')
@@ -979,7 +1100,7 @@ def _site(cfg):
     if s == 'admm_linearized':
         return 'admm_linearized[f=%s,g=%s]' % (cfg['f'], cfg['g'])
     if s in ('kaczmarz', 'osmlem'):
-        return '%s[%d operators]' % (s, len(cfg['ops']))
+        return '%s[%d operators%s]' % (s, len(cfg['ops']), ',random' if cfg.get('random') else '')
     if s == 'douglas_rachford_pd':
         return 'douglas_rachford_pd[f=%s,g=%s%s]' % (
             cfg['f'], '+'.join(cfg['g']) or 'none',
@@ -1008,16 +1129,38 @@ def run(cfg):
         # whether this functional / operator can be built on this space is C03/C07 matter
         return {'evals': 0, 'skipped': 1, 'trivial': True, 'sig': 'unbuildable',
                 'why': {'construction raises: ' + type(e).__name__: 1}}
-    for i, c in enumerate(cases):
-        # thorough: 3-way splittings for every instance of the small pools, for the default
-        # instance of the large pools
-        three = cfg['deep'] and (i == 0 or cfg['dev'] > 1)
-        _check_case(c, cfg['N'], three, acc, name)
+    rnd = bool(cfg.get('random'))
+    if rnd:
+        rng_state = np.random.get_state()
+        del _PERMS[:]
+        np.random.permutation = _recording_permutation
+    try:
+        for i, c in enumerate(cases):
+            # thorough: 3-way splittings for every instance of the small pools, for the default
+            # instance of the large pools
+            three = cfg['deep'] and (i == 0 or cfg['dev'] > 1)
+            _check_case(c, cfg['N'], three, acc, name)
+    finally:
+        if rnd:
+            np.random.permutation = _ORIG_PERMUTATION
+            np.random.set_state(rng_state)
+    vacuous = False
+    if rnd:
+        # the drawn orders must include a non-identity order and a solver call whose order
+        # changes between iterations, otherwise random=True was not really exercised
+        calls = [g for g in _PERMS if g]
+        nonid = any(o != sorted(o) for g in calls for o in g)
+        varying = any(len(set(map(tuple, g))) > 1 for g in calls)
+        acc.sigs.add('orders:%d' % len(set(tuple(o) for g in calls for o in g)))
+        del _PERMS[:]
+        if not (nonid and varying):
+            vacuous = True
+            acc.skip('random=True: drawn orders all identical / identity (vacuous state)')
     viol = [{'site': st or site, 'symptom': s, 'detail': d}
             for (st, s), d in acc.first.items()]
     return {'evals': acc.evals, 'viol': viol, 'skipped': acc.skipped,
             'sig': ['%s:%s' % (name, s) for s in sorted(acc.sigs)] or [name + ':none'],
-            'trivial': acc.evals == 0, 'why': acc.why}
+            'trivial': acc.evals == 0 or vacuous, 'why': acc.why}
 
 
 def summarize(results):
